@@ -289,9 +289,26 @@ def check_exports(ctx, su, sv, s, scale=1.0):
                         ctx.violate("exchange.export_obj_str", t2 + ["same_object_again", "spacing_now=%d" % sp], small,
                                     {"n_v": [len(vs), len(rv)], "n_f": [len(fs), len(rf)]})
                         break
+            # the spacing option left out: every vertex of the sampled grid (spacing 1) is exported
+            if s == 1:
+                for fname, fn in (("export_obj_str", exchange.export_obj_str), ("export_off_str", exchange.export_off_str)):
+                    txt = fn(target())
+                    if fname == "export_obj_str":
+                        nv_ = sum(1 for l in txt.splitlines() if l.startswith("v "))
+                        nf_ = sum(1 for l in txt.splitlines() if l.startswith("f "))
+                    else:
+                        nv_, nf_ = (int(x) for x in txt.splitlines()[1].split()[:2])
+                    if nv_ != len(allv) or nf_ != len(allf):
+                        ctx.violate("exchange." + fname, t2 + ["default_spacing"], small, {"counts": [nv_, nf_], "expected": [len(allv), len(allf)]})
+                raw = exchange.export_stl_str(target(), binary=True)
+                if struct.unpack("<i", raw[80:84])[0] != len(allf):
+                    ctx.violate("exchange.export_stl_str", t2 + ["default_spacing"], small, {"facets": struct.unpack("<i", raw[80:84])[0], "expected": len(allf)})
             # container tessellation: vertex / face ids are offset per surface
             if nsurf >= 2:
                 c = target()
+                # (a tessellator chosen through the container: every surface gets one of its own)
+                from geomdl import tessellate as _tsl
+                c.tessellator = _tsl.TriangularTessellate()
                 c.tessellate(vertex_spacing=s)
                 # reference: the elements tessellated on their own at the sampling the container imposes on them (its delta)
                 cv, cf = [], 0
